@@ -5,9 +5,9 @@ import json, os, shutil, subprocess, sys
 from concurrent.futures import ThreadPoolExecutor
 jobs = []
 for arg in sys.argv[1:]:
-    # <PROP> (first round, seeds s1/s2) or <PROP>b (second round from /tmp/seed/<PROP>b, stored as s3/s4)
+    # <PROP> (first round, seeds s1/s2), <PROP>b (second sample from /tmp/seed/<PROP>b, stored as s3/s4) or <PROP>c (third sample, s5/s6)
     src = f'/tmp/seed/{arg}'
-    prop, shift = (arg[:-1], 2) if arg.endswith('b') else (arg, 0)
+    prop, shift = (arg[:-1], 2) if arg.endswith('b') else ((arg[:-1], 4) if arg.endswith('c') else (arg, 0))
     meta = json.load(open(f'{src}/SEED_meta.json'))
     for s in meta['seeds']:
         k = s['n']
